@@ -712,6 +712,7 @@ package moss
 //@   loop 1: invariant rv.childSegStacks != nil ==> sinceLoop(rv.childSegStacks)
 //@   loop 1: invariant @children forall c string :: visited(c) ==> has(rv.childSegStacks, c) &&
 //@       mergedSeq(rv.childSegStacks[c], footerStack(liveChildFooter(footer, c, higher.childSegStacks[c].incarNum)), 0, higher.childSegStacks[c])
+//@   loop 1: invariant forall c string :: visited(c) ==> has(higher.childSegStacks, c)
 
 // ---- the merger's merge of a stack (C01, C08, C13, C20) ------------------------------------------------
 
@@ -770,8 +771,11 @@ package moss
 //@   loop 2: modifies rv.childSegStacks, heap(SnapshotWrapper.refCount), heap(SnapshotWrapper.ss), heap(SnapshotWrapper.closer), heap(CollectionStats.TotSnapshotInternalClose)
 //@   loop 2: invariant rv != nil && fresh(rv) && mergedTop(rv, ss, base)
 //@   loop 2: invariant rv.childSegStacks != nil ==> sinceLoop(rv.childSegStacks)
-//@   loop 2: invariant @children forall c string :: visited(c) ==> has(rv.childSegStacks, c) &&
-//@       mergedTop(rv.childSegStacks[c], ss.childSegStacks[c], baseFor(base, c, ss.childSegStacks[c].incarNum))
+//@   loop 2: invariant @hasit forall c string :: visited(c) ==> has(rv.childSegStacks, c)
+//@   loop 2: invariant @nonnil forall c string :: visited(c) ==> rv.childSegStacks[c] != nil && len(rv.childSegStacks[c].a) >= 1
+//@   loop 2: invariant @fields forall c string :: visited(c) ==> rv.childSegStacks[c].incarNum == ss.childSegStacks[c].incarNum && rv.childSegStacks[c].lowerLevelSnapshot == ss.childSegStacks[c].lowerLevelSnapshot
+//@   loop 2: invariant @children forall c string :: visited(c) ==> mergedTop(rv.childSegStacks[c], ss.childSegStacks[c], baseFor(base, c, ss.childSegStacks[c].incarNum))
+//@   loop 2: invariant forall c string :: visited(c) ==> has(ss.childSegStacks, c)
 
 // ---- building the footer of a persistence round (C04, C11, C12) --------------------------------------
 
@@ -799,6 +803,7 @@ package moss
 //@   loop 1: invariant forall c string :: visited(c) ==> has(footer.ChildFooters, c) &&
 //@       extendsFooter(footer.ChildFooters[c], liveChildFooter(storeFooter, c, ss.childSegStacks[c].incarNum), ss.childSegStacks[c])
 //@   loop 1: invariant forall c string :: has(footer.ChildFooters, c) ==> visited(c)
+//@   loop 1: invariant forall c string :: visited(c) ==> has(ss.childSegStacks, c)
 
 // ---- partial compaction: splicing the retained prefix back in (C07, C11) ---------------------------
 
@@ -852,6 +857,7 @@ package moss
 //@   loop 1: invariant footer.ChildFooters != nil ==> sinceLoop(footer.ChildFooters)
 //@   loop 1: invariant forall c string :: visited(c) ==> has(footer.ChildFooters, c) && sameLocs(footer.ChildFooters[c], revertToFooter.ChildFooters[c])
 //@   loop 1: invariant forall c string :: has(footer.ChildFooters, c) ==> visited(c)
+//@   loop 1: invariant forall c string :: visited(c) ==> has(revertToFooter.ChildFooters, c)
 
 // ---- walking back (C12) ----------------------------------------------------------------------------
 
@@ -967,6 +973,15 @@ package moss
 //@   modifies ioFailed, fields(f)
 //@   ensures err != nil ==> ioFailed
 //@   ensures !old(ioFailed) && err == nil ==> !ioFailed
+//@   ensures @identity f.filePos == old(f.filePos) && f.fileName == old(f.fileName) && f.refs == old(f.refs)
+
+// encoding/json only sets exported fields: where a footer was found, what it
+// is called and its reference count are not part of the JSON.
+//@ func encoding/json.Unmarshal
+//@   trusted encoding/json assigns exported fields only
+//@   attr havoc-args
+//@   ensures typeIs(v, "*Footer") && ptrOf(v, "*Footer") != nil ==> ptrOf(v, "*Footer").filePos == old(ptrOf(v, "*Footer").filePos) &&
+//@       ptrOf(v, "*Footer").fileName == old(ptrOf(v, "*Footer").fileName) && ptrOf(v, "*Footer").refs == old(ptrOf(v, "*Footer").refs)
 
 // The scan never panics and never allocates a negative size, whatever the
 // file contains; unless a file operation failed it ends with a footer or with
@@ -984,13 +999,15 @@ package moss
 //@   ensures @info r1 == nil ==> r0 != nil
 
 //@ func ScanFooter(options *StoreOptions, fref *FileRef, fileName string, pos int64) (*Footer, error)
-//@   props C05 C19
+//@   props C05 C19 C12
 //@   attr obligations P0 ensures call-requires decreases
 //@   requires fref != nil && fref.file != nil && pos >= 0 && pos <= 4611686018427387904 && !ioFailed
 //@   requires StorePageSize > 0 && StorePageSize <= 1073741824 && footerBegLen == 20 && footerEndLen == 24 && lenMagicBeg == 6 && lenMagicEnd == 6
 //@   modifies ioFailed
 //@   ensures @assume_fn r1 == nil ==> r0 == scanAt(fref, pos) && r0 != nil
 //@   ensures @total !ioFailed ==> r1 == nil || r1 == ErrNoValidFooter
+//@   ensures @where r1 == nil ==> r0.filePos == local(pos)
+//@   ensures @name r1 == nil ==> r0.fileName == fileName && r0.refs == 1
 //@   loop 1: modifies ioFailed
 //@   loop 1: invariant !ioFailed && pos <= 4611686018427387904 && fref.file != nil
 //@   loop 2: modifies ioFailed
